@@ -348,3 +348,344 @@ Section Snapshot.
     Forall inv (st_graph s) -> ginstr_sem i p w s = Ok (w', s') -> Forall inv (st_graph s').
   Proof. intros I R. eapply gstep_inv; [exact I|]. exact (proj2 (ginstr_effect _ _ _ _ _ _ R)). Qed.
 End Snapshot.
+
+(* ---------------------------------------------------------------------- *)
+(* single instructions on explicit operands *)
+Ltac open_state s :=
+  destruct s;
+  cbn [st_bool st_code st_exec st_float st_index st_int st_name st_bvec st_fvec st_ivec st_input st_output
+       st_graph st_bind st_cfg st_quote st_send] in *; subst.
+Ltac run_body :=
+  cbv beta iota zeta delta [graph_add graph_dup graph_node_add graph_node_get_state graph_node_history
+      graph_node_set_state graph_node_neighbors graph_node_predecessors graph_node_successors graph_query
+      graph_node_state_switch graph_nodes graph_nodes_history graph_stack_depth graph_print graph_print_diff
+      graph_edge_add graph_edge_history graph_edge_history_pinned graph_edge_history_gen graph_edge_get_weight
+      graph_edge_set_weight g_add_node_w counter_fetch_add set_top push_int push_float push_name
+      st_bool st_code st_exec st_float st_index st_int st_name st_bvec st_fvec st_ivec st_input st_output
+      st_graph st_bind st_cfg st_quote st_send
+      set_int set_float set_name set_ivec set_bvec set_graph].
+
+Lemma i32_as_usize_nonneg i : 0 <= i -> i32_as_usize i = i.
+Proof. intros H. unfold i32_as_usize. replace (i <? 0) with false by lia. reflexivity. Qed.
+
+(* the k-th newest snapshot of a graph stack (k = 0: the top) *)
+Definition snapshot_at (l : list graph) (k : Z) : option graph := nth_error (rev l) (Z.to_nat k).
+
+Lemma snapshot_at_bget l k : 0 <= k -> snapshot_at l k = bget Stack l k.
+Proof. intros H. rewrite <- gs_get_bget by assumption. symmetry. now apply gs_get_newest. Qed.
+
+Section History.
+  Context {FO : FloatOps}.
+
+  Lemma history_negative s pos r :
+    st_int s = pos :: r -> pos < 0 ->
+    graph_node_history s = Ok (set_int s r)
+    /\ graph_edge_history s = Ok (set_int s r)
+    /\ graph_nodes_history s = Ok (set_int s r).
+  Proof.
+    intros E N. open_state s. run_body.
+    replace (0 <=? pos) with false by lia. repeat split; reflexivity.
+  Qed.
+
+  Lemma node_history_spec s pos id r :
+    st_int s = pos :: id :: r -> 0 <= pos ->
+    graph_node_history s =
+    Ok (set_int s (match snapshot_at (st_graph s) pos with
+                   | Some g => if 0 <=? id
+                               then match g_get_state g id with Some st => st :: r | None => r end
+                               else r
+                   | None => r
+                   end)).
+  Proof.
+    intros E N. open_state s. run_body.
+    replace (0 <=? pos) with true by lia. rewrite gs_get_newest by assumption. unfold snapshot_at.
+    destruct (nth_error (rev st_graph) (Z.to_nat pos)) as [g|]; [|reflexivity].
+    destruct (Z.leb_spec 0 id) as [I|I]; [|reflexivity].
+    rewrite i32_as_usize_nonneg by assumption. destruct (g_get_state g id); reflexivity.
+  Qed.
+
+  Lemma edge_history_spec s pos d o r :
+    st_int s = pos :: d :: o :: r -> 0 <= pos ->
+    graph_edge_history s =
+    Ok (match snapshot_at (st_graph s) pos with
+        | Some g => match g_get_weight g (i32_as_usize o) (i32_as_usize d) with
+                    | Some w => set_float (set_int s r) (w :: st_float s)
+                    | None => set_int s r
+                    end
+        | None => set_int s (d :: o :: r)
+        end).
+  Proof.
+    intros E N. open_state s. run_body.
+    replace (0 <=? pos) with true by lia. rewrite gs_get_newest by assumption. unfold snapshot_at.
+    destruct (nth_error (rev st_graph) (Z.to_nat pos)) as [g|]; [|reflexivity].
+    destruct (g_get_weight g (i32_as_usize o) (i32_as_usize d)); reflexivity.
+  Qed.
+
+  (* the body as pinned (guard `pos > 0`): depth 0 reads nothing and leaves the ids *)
+  Lemma edge_history_pinned_depth0 s d o r :
+    st_int s = 0 :: d :: o :: r -> graph_edge_history_pinned s = Ok (set_int s (d :: o :: r)).
+  Proof. intros E. open_state s. reflexivity. Qed.
+
+  Lemma nodes_history_spec s pos r sts vr :
+    st_int s = pos :: r -> st_ivec s = sts :: vr -> 0 <= pos ->
+    graph_nodes_history s =
+    Ok (match snapshot_at (st_graph s) pos with
+        | Some g => set_ivec (set_int s r) (g_filter g sts :: vr)
+        | None => set_int s r
+        end).
+  Proof.
+    intros E V N. open_state s. run_body.
+    replace (0 <=? pos) with true by lia. rewrite gs_get_newest by assumption. unfold snapshot_at.
+    destruct (nth_error (rev st_graph) (Z.to_nat pos)) as [g|]; reflexivity.
+  Qed.
+End History.
+
+(* ---------------------------------------------------------------------- *)
+(* ids that are not nodes of the graph *)
+Lemma zm_get_lt_none {V} (m : zmap V) k :
+  zsorted m -> (forall x, In x (map fst m) -> k < x) -> zm_get k m = None.
+Proof.
+  intros _ L. apply zm_get_none. intros I. specialize (L _ I). lia.
+Qed.
+
+Lemma zm_insert_same {V} (m : zmap V) k v : zsorted m -> zm_get k m = Some v -> zm_insert k v m = m.
+Proof.
+  unfold zsorted. induction m as [|[k0 v0] r IH]; cbn [zm_get zm_insert map fst snd]; [discriminate|].
+  intros S G. inversion S as [|? ? Sr Hd]; subst.
+  destruct (Z.eqb_spec k0 k) as [->|NE].
+  - inversion G; subst. replace (k <? k) with false by lia. replace (k =? k) with true by lia. reflexivity.
+  - destruct (Z.ltb_spec k k0) as [LT|GE].
+    + exfalso. assert (N : zm_get k r = None).
+      { apply zm_get_none. intros I. rewrite Forall_forall in Hd. specialize (Hd _ I). lia. }
+      congruence.
+    + replace (k =? k0) with false by lia. f_equal. now apply IH.
+Qed.
+
+Lemma e_position_none o (es : list edge) :
+  ~ In o (map fst es) -> e_position o es = None.
+Proof.
+  induction es as [|x r IH]; cbn [e_position map In]; [reflexivity|]. intros N.
+  unfold e_origin. destruct (Z.eqb_spec (fst x) o) as [E|E]; [tauto|].
+  rewrite IH; [reflexivity|tauto].
+Qed.
+
+Definition stale (g : graph) (id : Z) : Prop := g_get_state g id = None.
+
+Lemma stale_mem g id : stale g id -> zm_mem id (g_nodes g) = false.
+Proof. unfold stale, g_get_state, zm_mem. now intros ->. Qed.
+
+Lemma stale_not_origin g d es o :
+  inv g -> zm_get d (g_edges g) = Some es -> stale g o -> ~ In o (map fst es).
+Proof.
+  intros I G S IN. destruct (inv_lookup _ _ _ I G) as (_ & _ & F). cbn [snd] in F.
+  apply in_map_iff in IN as (e & <- & IE). rewrite Forall_forall in F. specialize (F _ IE).
+  rewrite (stale_mem _ _ S) in F. discriminate.
+Qed.
+
+Lemma stale_not_dest g d es : inv g -> zm_get d (g_edges g) = Some es -> stale g d -> False.
+Proof.
+  intros I G S. destruct (inv_lookup _ _ _ I G) as (M & _ & _). cbn [fst] in M.
+  rewrite (stale_mem _ _ S) in M. discriminate.
+Qed.
+
+Lemma g_set_state_stale g id st : stale g id -> g_set_state g id st = g.
+Proof. unfold stale, g_get_state, g_set_state. now intros ->. Qed.
+
+Lemma g_add_edge_stale g o d w : stale g o \/ stale g d -> g_add_edge g o d w = g.
+Proof.
+  intros [S|S]; unfold g_add_edge; rewrite (stale_mem _ _ S); [reflexivity|now rewrite andb_false_r].
+Qed.
+
+Lemma g_set_weight_stale g o d w : inv g -> stale g o \/ stale g d -> g_set_weight g o d w = g.
+Proof.
+  intros I S. unfold g_set_weight. destruct (zm_get d (g_edges g)) as [es|] eqn:G; [|reflexivity].
+  destruct S as [S|S]; [|exfalso; eapply stale_not_dest; eassumption].
+  unfold e_set_first. rewrite (e_position_none o es) by (eapply stale_not_origin; eassumption).
+  rewrite zm_insert_same; [now destruct g|apply I|assumption].
+Qed.
+
+Lemma g_get_weight_stale g o d : inv g -> stale g o \/ stale g d -> g_get_weight g o d = None.
+Proof.
+  intros I S. unfold g_get_weight. destruct (zm_get d (g_edges g)) as [es|] eqn:G; [|reflexivity].
+  destruct S as [S|S]; [|exfalso; eapply stale_not_dest; eassumption].
+  unfold e_get_first. now rewrite (e_position_none o es) by (eapply stale_not_origin; eassumption).
+Qed.
+
+Section Stale.
+  Context {FO : FloatOps}.
+
+  Lemma switch_loop_stale ids : forall g sw on off,
+    Forall (fun id => stale g (i32_as_usize id)) ids -> switch_loop g ids sw on off = g.
+  Proof.
+    induction ids as [|id ri IH]; intros g sw on off F; cbn [switch_loop]; [reflexivity|].
+    destruct sw as [|b rb]; [reflexivity|]. inversion F; subst.
+    rewrite g_set_state_stale by assumption. now apply IH.
+  Qed.
+
+  Ltac top_is H := let b := fresh "below" in destruct (gs_get_0_split _ _ H) as [b ->].
+
+  Lemma stale_set_state s g st id r :
+    gs_get (st_graph s) 0 = Some g -> st_int s = st :: id :: r -> stale g (i32_as_usize id) ->
+    graph_node_set_state s = Ok (set_int s r).
+  Proof.
+    intros T E S. open_state s. top_is T. run_body. rewrite gs_get_top.
+    destruct (0 <? id); [|reflexivity]. rewrite g_set_state_stale by assumption.
+    now rewrite gs_set_top_app.
+  Qed.
+
+  Lemma stale_edge_add s g w fr d o r :
+    gs_get (st_graph s) 0 = Some g -> st_float s = w :: fr -> st_int s = d :: o :: r ->
+    stale g (i32_as_usize o) \/ stale g (i32_as_usize d) ->
+    graph_edge_add s = Ok (set_int (set_float s fr) r).
+  Proof.
+    intros T F E S. open_state s. top_is T. run_body. rewrite gs_get_top.
+    rewrite g_add_edge_stale by assumption. now rewrite gs_set_top_app.
+  Qed.
+
+  Lemma stale_edge_set_weight s g w fr d o r :
+    gs_get (st_graph s) 0 = Some g -> inv g -> st_float s = w :: fr -> st_int s = d :: o :: r ->
+    stale g (i32_as_usize o) \/ stale g (i32_as_usize d) ->
+    graph_edge_set_weight s = Ok (set_int (set_float s fr) r).
+  Proof.
+    intros T I F E S. open_state s. top_is T. run_body. rewrite gs_get_top.
+    rewrite g_set_weight_stale by assumption. now rewrite gs_set_top_app.
+  Qed.
+
+  Lemma stale_state_switch s g ids vr sw br off on r :
+    gs_get (st_graph s) 0 = Some g -> st_ivec s = ids :: vr -> st_bvec s = sw :: br -> st_int s = off :: on :: r ->
+    Forall (fun id => stale g (i32_as_usize id)) ids ->
+    graph_node_state_switch s = Ok (set_int (set_bvec (set_ivec s vr) br) r).
+  Proof.
+    intros T V B E S. open_state s. top_is T. run_body. rewrite gs_get_top.
+    rewrite switch_loop_stale by assumption. now rewrite gs_set_top_app.
+  Qed.
+
+  Lemma stale_get_state s g id r :
+    gs_get (st_graph s) 0 = Some g -> st_int s = id :: r -> stale g (i32_as_usize id) ->
+    graph_node_get_state s = Ok (set_int s r).
+  Proof.
+    intros T E S. open_state s. top_is T. run_body. rewrite gs_get_top.
+    destruct (0 <? id); [|reflexivity]. unfold stale in S. now rewrite S.
+  Qed.
+
+  Lemma stale_get_weight s g d o r :
+    gs_get (st_graph s) 0 = Some g -> inv g -> st_int s = d :: o :: r ->
+    stale g (i32_as_usize o) \/ stale g (i32_as_usize d) ->
+    graph_edge_get_weight s = Ok (set_int s r).
+  Proof.
+    intros T I E S. open_state s. top_is T. run_body. rewrite gs_get_top.
+    now rewrite g_get_weight_stale by assumption.
+  Qed.
+End Stale.
+
+(* ---------------------------------------------------------------------- *)
+(* the wrappers and the API: all operands present, top graph [g] *)
+Section Wrappers.
+  Context {FO : FloatOps}.
+  Variables (s : state) (below : list graph) (g : graph).
+  Hypothesis TOP : st_graph s = below ++ [g].
+
+  Ltac start := open_state s; run_body; rewrite ?gs_get_top.
+
+  Lemma w_add :
+    graph_add s = Ok (set_graph s (if zlen (st_graph s) <? GRAPH_CAP then st_graph s ++ [g_new] else st_graph s)).
+  Proof. reflexivity. Qed.
+
+  Lemma w_dup :
+    graph_dup s = Ok (set_graph s (if zlen (st_graph s) <? GRAPH_CAP then st_graph s ++ [g] else st_graph s)).
+  Proof. start. reflexivity. Qed.
+
+  Lemma w_stack_depth : graph_stack_depth s = Ok (set_int s (wrap32 (zlen (st_graph s)) :: st_int s)).
+  Proof. reflexivity. Qed.
+
+  Lemma w_node_add p w st r :
+    st_int s = st :: r ->
+    graph_node_add p w s =
+    Ok ({| w_next_node := wrap64u (w_next_node w + 1); w_tape := w_tape w |},
+        set_graph (set_int s (usize_as_i32 (w_next_node w) :: r)) (below ++ [g_add_node g (w_next_node w) st])).
+  Proof. intros E. start. now rewrite gs_set_top_app. Qed.
+
+  Lemma w_node_set_state st id r :
+    st_int s = st :: id :: r -> 0 < id ->
+    graph_node_set_state s = Ok (set_graph (set_int s r) (below ++ [g_set_state g id st])).
+  Proof.
+    intros E P. start. replace (0 <? id) with true by lia.
+    rewrite i32_as_usize_nonneg by lia. now rewrite gs_set_top_app.
+  Qed.
+
+  Lemma w_node_get_state id r :
+    st_int s = id :: r -> 0 < id ->
+    graph_node_get_state s = Ok (set_int s (match g_get_state g id with Some st => st :: r | None => r end)).
+  Proof.
+    intros E P. start. replace (0 <? id) with true by lia.
+    rewrite i32_as_usize_nonneg by lia. destruct (g_get_state g id); reflexivity.
+  Qed.
+
+  Lemma w_edge_add w fr d o r :
+    st_float s = w :: fr -> st_int s = d :: o :: r ->
+    graph_edge_add s =
+    Ok (set_graph (set_int (set_float s fr) r) (below ++ [g_add_edge g (i32_as_usize o) (i32_as_usize d) w])).
+  Proof. intros F E. start. now rewrite gs_set_top_app. Qed.
+
+  Lemma w_edge_set_weight w fr d o r :
+    st_float s = w :: fr -> st_int s = d :: o :: r ->
+    graph_edge_set_weight s =
+    Ok (set_graph (set_int (set_float s fr) r) (below ++ [g_set_weight g (i32_as_usize o) (i32_as_usize d) w])).
+  Proof. intros F E. start. now rewrite gs_set_top_app. Qed.
+
+  Lemma w_edge_get_weight d o r :
+    st_int s = d :: o :: r ->
+    graph_edge_get_weight s =
+    Ok (match g_get_weight g (i32_as_usize o) (i32_as_usize d) with
+        | Some w => set_float (set_int s r) (w :: st_float s)
+        | None => set_int s r
+        end).
+  Proof. intros E. start. destruct (g_get_weight g (i32_as_usize o) (i32_as_usize d)); reflexivity. Qed.
+
+  Lemma w_nodes sts vr :
+    st_ivec s = sts :: vr -> graph_nodes s = Ok (set_ivec s (g_filter g sts :: vr)).
+  Proof. intros E. start. reflexivity. Qed.
+
+  Lemma w_query (q : graph -> Z -> list Z -> list Z) sts vr id r :
+    st_ivec s = sts :: vr -> st_int s = id :: r -> 0 < id ->
+    graph_query q s = Ok (set_ivec (set_int s r) (map usize_as_i32 (q g id sts) :: vr)).
+  Proof.
+    intros V E P. start. replace (0 <? id) with true by lia.
+    rewrite i32_as_usize_nonneg by lia. reflexivity.
+  Qed.
+
+  Lemma w_state_switch ids vr sw br off on r :
+    st_ivec s = ids :: vr -> st_bvec s = sw :: br -> st_int s = off :: on :: r ->
+    graph_node_state_switch s =
+    Ok (set_graph (set_int (set_bvec (set_ivec s vr) br) r) (below ++ [switch_loop g ids sw on off])).
+  Proof. intros V B E. start. now rewrite gs_set_top_app. Qed.
+
+  Lemma w_print : graph_print s = Ok (set_name s (graph_text g :: st_name s)).
+  Proof. start. reflexivity. Qed.
+End Wrappers.
+
+Section Wrappers2.
+  Context {FO : FloatOps}.
+  (* the diff is taken from the second graph (old) to the top graph (new) *)
+  Lemma w_print_diff s below old new :
+    st_graph s = below ++ [old; new] ->
+    graph_print_diff s = Ok (match g_diff old new with
+                             | Some d => set_name s (diff_text d :: st_name s)
+                             | None => s
+                             end).
+  Proof.
+    intros E. open_state s. run_body.
+    replace (below ++ [old; new]) with ((below ++ [old]) ++ [new]) at 1 by now rewrite <- app_assoc.
+    rewrite gs_get_top, gs_get_second. destruct (g_diff old new); reflexivity.
+  Qed.
+
+  (* the STATESWITCH loop: positions 0 .. min(len ids, len switch) - 1, in order *)
+  Lemma switch_loop_fold g ids sw on off :
+    switch_loop g ids sw on off =
+    fold_left (fun (a : graph) (x : Z * bool) => g_set_state a (i32_as_usize (fst x)) (if snd x then on else off))
+              (combine ids sw) g.
+  Proof.
+    revert g sw. induction ids as [|id ri IH]; intros g sw; [reflexivity|].
+    destruct sw as [|b rb]; [reflexivity|]. cbn [switch_loop combine fold_left fst snd]. apply IH.
+  Qed.
+End Wrappers2.
